@@ -706,5 +706,10 @@ Proof.
   - right. cbn [parse_content]. destruct (pe_nodes e) as [n|] eqn:E; [|congruence]. exists e, p, n. auto.
 Qed.
 
-Print Assumptions run_fuel_enough.
-Print Assumptions C06_total_proof.
+(** The reader position a top-level parse reports lies inside the input. *)
+Theorem parse_top_pos_proof s tol cx v p :
+  parse_top s tol cx (walker_state cx) = Ok v p -> p <= length s.
+Proof.
+  intros E. pose proof (run_bounded s tol cx (parse_fuel s) _ (top_task_ok s cx)) as B.
+  apply (pc_bounded s tol) in B. unfold parse_top in E. rewrite E in B. cbn [bounded] in B. tauto.
+Qed.
